@@ -34,6 +34,7 @@ type Version struct {
 
 // Event is what a watcher receives. Marker is the nil "end of initial data".
 type Event struct {
+	At     time.Time // when the change happened (zero for the initial value / marker of a new watcher)
 	Marker bool
 	Key    string
 	Value  []byte
@@ -122,7 +123,7 @@ func (s *Store) write(key string, value []byte, tomb bool, actor, op string, pre
 	}
 	s.latest[key] = v
 	s.History = append(s.History, v)
-	ev := Event{Key: key, Value: v.Value, Rev: v.Rev, Delete: tomb}
+	ev := Event{At: now, Key: key, Value: v.Value, Rev: v.Rev, Delete: tomb}
 	if tomb {
 		ev.Value = nil
 	}
